@@ -64,6 +64,18 @@ def oracle(R, spec, alg, x, y):
             s = alg.signs[len(alg) - 1, len(alg) - 1]
             want = oc.observe(mx * (pss * s))          # pss^-1 = pss / pss^2
             if not oc.same_element(oc.observe(pol), want): bad('polarity-spec', f'x={x}: {oc.observe(pol)} vs x*pss^-1 = {want}')
+            # exact coefficients stay exact: Fractions and integers beyond 2**53 through every dual and back
+            from fractions import Fraction as _Fr
+            exact_vals = [_Fr(v, 3) if i % 2 else (2 ** 64 + 1) * (v or 1) for i, (_, v) in enumerate(x)]
+            ex = oc.make_mv(alg, [k for k, _ in x], exact_vals)
+            for nm_, there, back_ in (('polarity', 'polarity', 'unpolarity'), ('hodge', 'hodge', 'unhodge'), ('dual', 'dual', 'undual')):
+                t_ = getattr(ex, there)()
+                b_ = getattr(t_, back_)()
+                inexact = [type(v_).__name__ for v_ in list(t_.values()) + list(b_.values()) if isinstance(v_, float)]
+                if inexact or dict(zip(b_.keys(), b_.values())) != {k_: v_ for k_, v_ in zip(ex.keys(), exact_vals)}:
+                    bad(nm_ + '-exactness', f'{back_}({there}(x)) = {dict(zip(b_.keys(), b_.values()))} for the exact x = {dict(zip(ex.keys(), exact_vals))} '
+                                            f'({there}(x) = {dict(zip(t_.keys(), t_.values()))})')
+                    break
     except ZeroDivisionError:
         if not degenerate:
             bad('polarity-raises', 'ZeroDivisionError for a non-degenerate metric')
